@@ -117,6 +117,7 @@ func programJob(cfg Config, prog []Op, seed int64) job {
 
 func c02Job(cfg c02.Config, prog []c02.Op, seed int64) job {
 	return func() (*produced, error) {
+		cfg.PlainMeta = true // the observer knows the Info title of these files
 		run, err := c02.Execute(cfg, append([]c02.Op(nil), prog...), seed)
 		if err != nil {
 			return nil, err
